@@ -236,6 +236,8 @@ def _r4(ctx, F, b, fl, fn, tag, writes, rid='C05.R4'):
                 why.append('write not guarded by read_exact Ok on the same buffer')
             if not sk_ok:
                 why.append('write not guarded by seek(SeekFrom::Start(op.offset)) Ok')
+        elif [rb for rb, rt in fl.calls(lambda c: c in ('std::io::Read::read', 'tokio::io::AsyncReadExt::read')) if _okey(fl.origins(rt['args'][1])) & wkey]:
+            why.append('the buffer is filled by read(), which may return fewer bytes than the op length, not by read_exact')
         else:
             helpers = []
             for hb_, ht in fl.calls(lambda c: F.body(c) is not None):
